@@ -282,6 +282,20 @@ func run(s *core.Shard) {
 			s.Nontrivial(c.Split.Key())
 		}
 	}
+	for i := 0; i < 20; i++ {
+		if !s.Mine(n + 112 + i) {
+			continue
+		}
+		if !s.Begin(fmt.Sprintf("unclean-key/%d", i)) {
+			continue
+		}
+		c := uncleanKey(i)
+		if ok, _ := judge(s, c); ok {
+			s.Cover("carrier", c.Carrier)
+			s.Cover("focus", c.Focus)
+			s.Nontrivial(c.Split.Key())
+		}
+	}
 	for i := 0; i < 64; i++ {
 		if !s.Mine(n + 48 + i) {
 			continue
